@@ -37,6 +37,9 @@ def node_iri(draw, base):
     if fam == "urn":
         return "urn:x:" + draw(st.sampled_from(["a", "ab", "b:c"])) + str(draw(st.integers(0, 3)))
     path = draw(st.sampled_from(["", "res/", "res/", "rest/", "res/item/", "v#", "res#"]))
+    if draw(st.integers(0, 5)) == 0:
+        # a "container" IRI that is a proper prefix of its members' IRIs (http://ex.org/res/item vs http://ex.org/res/item/n1)
+        return "%s://%s/%s" % (fam, host, path.rstrip("/#") or "res")
     local = draw(st.sampled_from(["n", "n", "a", "ab", "item"])) + str(draw(st.integers(0, 4)))
     return "%s://%s/%s%s" % (fam, host, path, local)
 
